@@ -308,6 +308,31 @@ pub fn run(ctx: &mut Ctx) {
         ctx.check("reduce:long-rows", &json!({"reduce": [{"var": "rows"}, {"cat": [{"var": "accumulator"}, {"var": "current.0"}, {"var": "current.-1"}]}, ""]}), &dd);
         ctx.check("reduce:long-rows:acc-index", &json!({"reduce": [{"var": "rows"}, {"cat": [{"var": "accumulator.0"}, {"var": "current"}]}, ""]}), &dd);
     }
+    // the accumulator passes through every edge value in the middle of a fold (null, false, 0, "", [], {}): a
+    // step that keeps the accumulator must hand exactly that value on - null is a value, not "not yet seeded"
+    {
+        let keep = json!({"if": [{"===": [{"var": "current"}, "KEEP"]}, {"var": "accumulator"}, {"var": "current"}]});
+        let steps = vec![
+            keep.clone(),
+            json!({"and": [{"var": "accumulator"}, {"var": "current"}]}),
+            json!({"or": [{"var": "current"}, {"var": "accumulator"}]}),
+            json!({"var": ["current.x", {"var": "accumulator"}]}),
+            json!({"if": [{"var": "current"}, {"var": "current"}, {"var": "accumulator"}]}),
+        ];
+        for x in [json!(null), json!(false), json!(0), json!(""), json!([]), json!({}), json!(-0.0), json!("v")] {
+            if !ctx.mine() {
+                continue;
+            }
+            for coll in [json!([x, "KEEP"]), json!([1, x, "KEEP", "KEEP"]), json!(["KEEP", x, "KEEP", 2]), json!([x, x]), json!([1, x, 2])] {
+                for st in &steps {
+                    for init in [json!("INIT"), json!({"var": "seed"}), json!(null), json!(7)] {
+                        ctx.edge();
+                        ctx.check("reduce:accumulator-passes-through", &json!({"reduce": [{"var": "c"}, st, init]}), &json!({"c": coll, "seed": "SEED"}));
+                    }
+                }
+            }
+        }
+    }
     // null and non-array collections
     if ctx.mine() {
         let noncolls = vec![json!(null), json!("abc"), json!(5), json!(true), json!({}), json!({"a": 1}), json!(""), json!(0), json!(false)];
